@@ -120,6 +120,44 @@ CATALOGUE['C08'] = [
                 pushed = pushed + 1""",
       """                push(InstanceDict(client, md))  # Circ. Ref. 8-|
                 pushed += 1"""),
+    V('silent: push extracted into a helper method', 'DT_Let.py',
+      """    def render(self, md):
+        d = {}
+        md._push(d)
+        try:""",
+      """    def _enter(self, md, d):
+        md._push(d)
+
+    def render(self, md):
+        d = {}
+        self._enter(md, d)
+        try:"""),
+    V('helper pushes but caller forgets the pop', 'DT_Let.py',
+      """    def render(self, md):
+        d = {}
+        md._push(d)
+        try:
+            for name, expr in self.args:
+                if isinstance(expr, str):
+                    d[name] = md[expr]
+                else:
+                    d[name] = expr(md)
+            return render_blocks(self.section, md, encoding=self.encoding)
+        finally:
+            md._pop(1)""",
+      """    def _enter(self, md, d):
+        md._push(d)
+
+    def render(self, md):
+        d = {}
+        self._enter(md, d)
+        for name, expr in self.args:
+            if isinstance(expr, str):
+                d[name] = md[expr]
+            else:
+                d[name] = expr(md)
+        return render_blocks(self.section, md, encoding=self.encoding)""",
+      'C08.R1'),
     V('silent: hoist benign statement between push and try', 'DT_Let.py',
       """        md._push(d)
         try:""",
